@@ -187,7 +187,7 @@ void Response::toXml(QXmlStreamWriter *writer) const
 std::optional<Success> Success::fromDom(const QDomElement &el)
 {
     if (el.tagName() == u"success" && el.namespaceURI() == ns_sasl) {
-        return Success();
+        return Success { parseBase64(el.text()).value_or(QByteArray()) };
     }
     return {};
 }
